@@ -424,13 +424,11 @@ def c_type_def(ch, uid=1):
         if ch.flag("tb_private"):
             out.append(S("private", "private"))
         out.append(S(ch.pick(["procedure :: m1", "procedure, pass(self) :: m1 => impl1", "procedure, nopass, public :: m1", "procedure(iface), deferred :: m1", "procedure, non_overridable :: m1", "procedure m1"], "tbp"), "specific_binding"))
-        tb = ch.choose(4, "tb_more")
+        tb = ch.choose(3, "tb_more")
         if tb >= 1:
             out.append(S(ch.pick(["generic :: g => m1", "generic, public :: operator(+) => m1", "generic :: assignment(=) => m1", "generic :: write(formatted) => m1", "generic :: operator(.dot.) => m1, m2"], "generic"), "generic_binding"))
         if tb >= 2:
             out.append(S(ch.pick(["final :: fin", "final fin, fin2"], "final"), "final_binding"))
-        if tb >= 3:
-            out.append(S("procedure :: m3, m4 => impl4", "specific_binding", std="f2008"))
     endt = closer(ch.pick(["end type %s" % tname, "end type", "endtype %s" % tname], "endtype"), "end_type")
     return [head] + out + [endt]
 
@@ -462,7 +460,10 @@ def c_interface(ch, uid=1):
         ]
     if b == 2 or (b == 3 and v in (1, 2, 3, 5)):
         if v in (1, 2, 3, 5, 6) or b == 2:
-            out.append(S(ch.pick(["module procedure mp1", "module procedure mp1, mp2", "procedure mp1", "module procedure :: mp1"], "modproc"), "procedure_stmt"))
+            mp = ch.pick(["module procedure mp1", "module procedure mp1, mp2", "procedure mp1", "module procedure :: mp1"], "modproc")
+            # 'procedure' without MODULE and the '::' form are F2008 (R1206);
+            # the f2003 parser's answer for them is not constrained
+            out.append(S(mp, "procedure_stmt", std="f2008x" if (mp.startswith("procedure") or "::" in mp) else "f2003"))
     out.append(closer(tail, "end_interface"))
     return out
 
